@@ -734,7 +734,16 @@ def check_exported_unique(model, col, rule):
     col.check(not rebinds, rule, f"{rel}::{v.name}.{fld} only grows", "names are added, never dropped or re-bound",
               f"{rebinds}: names seen earlier are forgotten, so a second exported function of an earlier name is accepted when another export lies between them; "
               "both lower to the same IR name and the later body runs for calls bound to the first", rel, v.node)
-    # path discipline
+    # path discipline (on the handler with its helpers read in place; if the test sits in a helper that cannot be read in
+    # place - it has an early exit - on that helper itself, whose first parameter after self is the function node)
+    if not any(isinstance(x, ast.Attribute) and x.attr == fld for x in ast.walk(h)):
+        for m in v.methods.values():
+            if m is not init and len(m.args.args) >= 2 and any(isinstance(x, ast.Attribute) and x.attr == fld for x in ast.walk(m)) \
+                    and any(isinstance(c, ast.Call) and last_attr(c) == m.name.lstrip("_") or (isinstance(c, ast.Call) and last_attr(c) == m.name) for c in ast.walk(h0)):
+                h, h0 = m, m
+                fp, selfn = m.args.args[1].arg, m.args.args[0].arg
+                env = local_env(m, allow_impure=True)
+                break
     keys = set()
     problems = []
     npaths = 0
